@@ -21,7 +21,7 @@ SMARTS = ['[C;D3]', 'C-C', 'C=O', 'c:c:n', '[N,O;D1]', 'C(=O)O', 'C1CC1', '[C;r6
           '[Na+].[Cl-]', '[O-]C=O.[Na+]', 'C.C.C', '[M]', '[A;D4]', 'CC(C)C', 'C1CC2CCC1C2', 'c1ccc2ccccc2c1', '[C;z2]=[O;x0]',
           'F.F', 'Cl.Cl.Cl', 'c1cc[n;h1]c1', '[N;h1,h2]', '[S;D4](=O)(=O)', '[C]#[N]', 'C=C-C=C', 'C1=CC=CC=C1']
 CONFIG = {
-    'quick': {'shards': 16, 'budget_s': 150, 'n_targets': 2400, 'per_target': 24,
+    'quick': {'shards': 16, 'budget_s': 300, 'n_targets': 2400, 'per_target': 24,
               'floors': {'evaluations': 20000, 'distinct_nontrivial': 5000, 'pairs.compared': 18000, 'pairs.nonempty': 6000,
                          'ops.is_substructure': 3000, 'ops.automorphism': 800, 'opt.scope': 1500, 'patterns.multi-component': 600}},
     'thorough': {'shards': 16, 'budget_s': 1800, 'n_targets': 4200, 'per_target': 200,
